@@ -119,6 +119,12 @@ func buildEBNF(root bool, n node, seen map[node]bool, p *ebnfp, outp *[]*ebnfp) 
 		p.out += fmt.Sprintf("%q", n.s)
 
 	case *group:
+		// A modifier applied to something that itself ends in a modifier, eg. ("a"+)?,
+		// needs parentheses: "a"+? is not valid EBNF.
+		parens := n.mode != groupMatchOnce && endsInModifier(n.expr)
+		if parens {
+			p.out += "("
+		}
 		if child, ok := n.expr.(*group); ok && child.mode == groupMatchOnce {
 			buildEBNF(false, child.expr, seen, p, outp)
 		} else if child, ok := n.expr.(*capture); ok {
@@ -129,6 +135,9 @@ func buildEBNF(root bool, n node, seen map[node]bool, p *ebnfp, outp *[]*ebnfp) 
 			}
 		} else {
 			buildEBNF(false, n.expr, seen, p, outp)
+		}
+		if parens {
+			p.out += ")"
 		}
 		switch n.mode {
 		case groupMatchNonEmpty:
@@ -154,4 +163,20 @@ func buildEBNF(root bool, n node, seen map[node]bool, p *ebnfp, outp *[]*ebnfp) 
 	default:
 		panic(fmt.Sprintf("unsupported node type %T", n))
 	}
+}
+
+// endsInModifier reports whether the EBNF printed for n ends in a repetition modifier.
+func endsInModifier(n node) bool {
+	switch n := n.(type) {
+	case *group:
+		if n.mode != groupMatchOnce {
+			return true
+		}
+		return endsInModifier(n.expr)
+	case *capture:
+		return endsInModifier(n.node)
+	case *negation:
+		return endsInModifier(n.node)
+	}
+	return false
 }
